@@ -7,6 +7,9 @@ import standins
 SEARCH = {
     ("pagelabels", "to_letters"): ["letters", "5000"],
     ("runlength", ""): None,
+    ("lru", ""): ["lru", "6"],
+    ("asciihex", ""): ["a85hex", "4"],
+    ("ascii85", ""): ["a85hex", "4"],
     ("bounded", "ascii85_group_value"): ["a85hex", "4"],
 }
 
